@@ -11,6 +11,13 @@ CHECKS = {
          "Trusts the IANA mnemonic table transcribed in c17.rs.", "§4 C17"),
 }
 
+CHECKS["C14"] = ("vcheck", "exhaustive small-buffer sweep + proptest structured buffers, differential against an independent RFC 1035 §4.1.4 decoder",
+    "Exhaustive over all buffers of length <= 5 over the 12 significant octets at every start offset; beyond that generated search (structured pointer/label layouts, names at the 255-octet/127-label limits split into pointer-chained chunks) with shrinking. Every decoding entry point (compressed, skip, uncompressed, validate, *_all) is compared on acceptance, name, label count and length.",
+    "Trusts vmodel::wire (unit-tested on the RFC 1035 §4.1.4 example). Search beyond length 5 is sampling.", "§4 C14")
+CHECKS["C16"] = ("vcheck", "proptest generators (names, text, related pairs/triples, builder op sequences) against an independent name model (round-trip, differential, order laws)",
+    "Generated search with shrinking over six sub-checks: Display/FromStr round trip incl. an independent RFC 1035 §5.1 parser and printer, text acceptance, Eq/Hash/Ord/subdomain on related pairs, transitivity on triples, every accessor, NameBuilder histories with a state model.",
+    "Trusts vmodel::name (unit-tested on the RFC 4034 §6.1 ordering example).", "§4 C16")
+
 NOT_YET = {}
 
 def main():
